@@ -205,7 +205,9 @@ PROPS["C12"] = dict(
           "left must be present with the same goroutine id in a confirmation snapshot, or be blocked and unchanged for 400 ms) no goroutine "
           "that was started during the case has a frame in github.com/hneemann/parser2/... or github.com/hneemann/iterator; a leak is "
           "identified by the entry function of the leaked goroutine: iterator.initParallel/MapParallel workers are attributed to the open "
-          "finding F11, iterator.ToChan producers to F12 (both in the dependency), anything else is a violation. The long-source exemplar "
+          "finding F11, iterator.ToChan producers to F12 (both in the dependency), anything else is a violation. error path part: five fixed shapes in which a merge operand or receiver (iterated by a goroutine of its own) "
+          "fails at its 3rd/4th item and has 4 000 000 items behind it, three evaluations each: 150 ms after the failed evaluation returned the "
+          "counting closure of that operand must have stopped (no background CPU work). The long-source exemplar "
           "of F12 runs once per tier in a short-lived process of its own. Non-trivial: (parse) an input was rejected, parsing stopped "
           "early; (pipeline) a goroutine-backed stage and a consumer that stops early or an error path; distinct = inputs / pipeline text."),
     assumptions=["goroutines are attributed to the library by their stack frames; goroutines left by earlier cases of the same process are excluded by id",
@@ -216,6 +218,7 @@ PROPS["C12"] = dict(
         dict(name="pipelines", run="^TestPropPipelines$", kind="rapid", shards=16, checks={"quick": 3200, "thorough": 60000},
              guard={"quick": 900, "thorough": 7200}),
         dict(name="known_F12", run="^TestKnownF12$", kind="plain", shards=1, guard={"quick": 300, "thorough": 300}),
+        dict(name="error_path", run="^TestErrorPathStopsBackgroundWork$", kind="plain", shards=1, guard={"quick": 300, "thorough": 300}),
     ],
     min_class_fraction={"parse_some_input_rejected": 0.3, "pipeline_goroutine_backed_stage": 0.02},
 )
